@@ -6541,8 +6541,10 @@ nice_agent_attach_recv (
   if (ctx == NULL)
     ctx = g_main_context_default ();
 
-  /* Set the component’s I/O context. */
-  nice_component_set_io_context (component, ctx);
+  /* Set the component’s I/O context. Without a callback reception is paused:
+   * park the sockets on the component’s own context, otherwise they would
+   * stay readable on the application’s context with nobody reading them. */
+  nice_component_set_io_context (component, func ? ctx : NULL);
   nice_component_set_io_callback (component, func, data, NULL, 0, NULL);
   ret = TRUE;
 
